@@ -8,7 +8,7 @@ import tempfile
 
 from . import core
 
-NCASES = 20
+NCASES = 25
 
 
 def spec(compiler="g++"):
